@@ -7,7 +7,7 @@
   run even when no generated input exercises the change; the check then searches for a failing input and reports the
   broken tie either way.
 -/
-import SqlizeModel.Generated.Facts
+import SqlizeModel.Generated.Skeletons
 
 namespace Sqlize.Tie
 
